@@ -17,6 +17,9 @@
 #include <functional>
 #include <unistd.h>
 #include <sys/wait.h>
+#if defined(__SANITIZE_ADDRESS__)
+#include <sanitizer/lsan_interface.h>
+#endif
 
 namespace hc {
 
@@ -28,6 +31,7 @@ struct Stats {
     std::set<uint64_t> distinctNontrivial;
     std::map<std::string, long> classes;
     std::vector<std::string> samples;
+    std::vector<std::string> records;      // free-form per-case records for cross-binary relations evaluated by the driver
     std::string outPath;
     long sinceDump = 0;
 
@@ -43,6 +47,7 @@ struct Stats {
         vj::Value c = vj::Value::object(); for(const auto& kv : classes) c[kv.first] = kv.second; j["classes"] = c;
         vj::Value s = vj::Value::array(); for(const auto& x : samples) s.push(vj::Value(x)); j["samples"] = s;
         // hashes allow the driver to count distinct cases across worker processes
+        if(!records.empty()){ vj::Value r = vj::Value::array(); for(const auto& x : records) r.push(vj::Value(x)); j["records"] = r; }
         vj::Value h = vj::Value::array(); long k = 0; for(uint64_t x : distinctNontrivial){ if(k++ > 200000) break; h.push(vj::Value((long long)(x >> 1))); } j["hashes"] = h;
         return j;
     }
@@ -86,7 +91,10 @@ inline Args parseArgs(int argc, char** argv){
 
 // Runs the campaign or the replay. The property returns "" / "SKIP..." / failure text.
 // Exit codes: 0 held, 1 failure (FAIL line printed, case written to --fail), 3 harness/model error.
-inline int runMain(const Args& a, const pbt::GenCfg& cfg, const pbt::Prop& prop){
+// optional check over the whole campaign (aggregated relations); returns a failure text and the cases to store
+using FinalCheck = std::function<std::string(std::vector<FmmCase>&)>;
+
+inline int runMain(const Args& a, const pbt::GenCfg& cfg, const pbt::Prop& prop, const FinalCheck& finalCheck = FinalCheck()){
     stats().outPath = a.out;
     const bool isolate = a.getInt("isolate", 0) != 0;
     // isolate mode: every evaluation runs in a forked child so that an abort (assert, sanitizer) is an
@@ -99,6 +107,12 @@ inline int runMain(const Args& a, const pbt::GenCfg& cfg, const pbt::Prop& prop)
         if(pid == 0){
             close(fd[0]);
             std::string r = prop(c);
+            if(a.prop == "C15"){
+                if(!r.empty() && r.compare(0, 4, "SKIP") != 0 && r.compare(0, 6, "crash:") != 0) r.clear();
+#if defined(__SANITIZE_ADDRESS__)
+                if(r.empty() && __lsan_do_recoverable_leak_check()) r = "crash: LeakSanitizer reports memory leaked by this case";
+#endif
+            }
             if(r.size() > 4000) r.resize(4000);
             ssize_t w = write(fd[1], r.data(), r.size()); (void)w;
             close(fd[1]);
@@ -116,12 +130,52 @@ inline int runMain(const Args& a, const pbt::GenCfg& cfg, const pbt::Prop& prop)
         if(!a.cur.empty()) vj::writeFile(a.cur, c.toJson());   // survives a sanitizer abort
         stats().evaluations += 1;
         std::string r = isolate ? isolated(c) : prop(c);
+        if(a.prop == "C15" && !isolate){
+            // C15 owns memory errors, undefined behaviour, leaks and assertion failures only (they abort the process or are found by
+            // the leak check below); a semantic oracle that fails here belongs to another property and is merely counted
+            if(!r.empty() && r.compare(0, 4, "SKIP") != 0 && r.compare(0, 6, "crash:") != 0){ stats().cls("semantic-oracle-failed-(owned-by-another-property)"); r.clear(); }
+#if defined(__SANITIZE_ADDRESS__)
+            if(r.empty() && __lsan_do_recoverable_leak_check()) r = "crash: LeakSanitizer reports memory leaked by this case";
+#endif
+        }
         if(r.compare(0, 4, "SKIP") == 0) stats().skipped += 1;
+        else if(!r.empty() && r.compare(0, 11, "MODEL-ERROR") != 0 && !a.fail.empty() && a.replay.empty()){
+            // every failing candidate is stored at once: the last one written is the most shrunk one, and a campaign that is
+            // stopped while shrinking (time budget) still leaves a failing case behind
+            vj::writeFile(a.fail, c.toJson());
+            std::cout << "FAIL " << r << std::endl;
+        }
         stats().maybeDump();
         return r;
     };
+    auto runFinal = [&]() -> int {
+        if(!finalCheck) return 0;
+        std::vector<FmmCase> worst;
+        const std::string r = finalCheck(worst);
+        stats().dump();
+        if(r.empty()) return 0;
+        if(!a.fail.empty()){
+            vj::Value j = vj::Value::object(); vj::Value arr = vj::Value::array();
+            for(const auto& w : worst) arr.push(w.toJson());
+            j["multi"] = arr;
+            vj::writeFile(a.fail, j);
+        }
+        std::cout << "FAIL " << r << std::endl;
+        return 1;
+    };
     if(!a.replay.empty()){
-        FmmCase c = FmmCase::fromJson(vj::parseFile(a.replay));
+        const vj::Value jv = vj::parseFile(a.replay);
+        if(jv.has("multi")){
+            // a stored campaign sample: every case must pass, then the aggregated relation is evaluated on the sample
+            for(const auto& jc : jv.at("multi").arr){
+                const std::string r = wrapped(FmmCase::fromJson(jc));
+                if(!r.empty() && r.compare(0, 4, "SKIP") != 0){ std::cout << "FAIL " << r << std::endl; return 1; }
+            }
+            const int rf = runFinal();
+            if(rf == 0) std::cout << "REPLAY-OK" << std::endl;
+            return rf;
+        }
+        FmmCase c = FmmCase::fromJson(jv);
         std::string r = wrapped(c);
         stats().dump();
         if(r.empty() || r.compare(0, 4, "SKIP") == 0){ std::cout << "REPLAY-OK " << r << std::endl; return 0; }
@@ -131,12 +185,41 @@ inline int runMain(const Args& a, const pbt::GenCfg& cfg, const pbt::Prop& prop)
     }
     pbt::RunResult res = pbt::run(a.prop, cfg, wrapped, a.seed, a.cases, a.size);
     stats().dump();
-    if(res.ok){ std::cout << "HELD cases=" << res.executed << std::endl; return 0; }
+    if(res.ok){
+        const int rf = runFinal();
+        if(rf != 0) return rf;
+        std::cout << "HELD cases=" << res.executed << std::endl; return 0;
+    }
     if(res.message.empty()){ std::cout << "INCONCLUSIVE generator gave up (too many discards)" << std::endl; return 0; }
     if(res.message.compare(0, 11, "MODEL-ERROR") == 0){ std::cout << res.message << std::endl; return 3; }
     if(!a.fail.empty()) vj::writeFile(a.fail, res.failing.toJson());
     std::cout << "FAIL " << res.message << "\nSHRUNK after " << res.shrinkSteps << " steps: " << res.failing.brief() << std::endl;
     return 1;
+}
+
+// libFuzzer targets: evaluate one decoded case; a failing oracle stores the decoded case and traps (the saved artifact
+// and the JSON case are both replayable)
+inline void fuzzInit(){
+    static bool done = false;
+    if(done) return;
+    done = true;
+    if(const char* p = getenv("VERIF_FUZZ_STATS")) stats().outPath = p;
+    atexit([](){ stats().dump(); });
+}
+inline int fuzzOne(const FmmCase& c, const pbt::Prop& prop){
+    fuzzInit();
+    stats().evaluations += 1;
+    const std::string r = prop(c);
+    if(r.empty()){ stats().maybeDump(); return 0; }
+    if(r.compare(0, 4, "SKIP") == 0){ stats().skipped += 1; return -1; }      // not added to the corpus
+    if(r.compare(0, 11, "MODEL-ERROR") == 0){ fprintf(stderr, "%s\n", r.c_str()); stats().dump(); _exit(3); }
+    if(const char* d = getenv("VERIF_FUZZ_OUT")){
+        char name[64]; snprintf(name, sizeof name, "/fail-%016llx.json", (unsigned long long)hashCase(c));
+        vj::writeFile(std::string(d) + name, c.toJson());
+    }
+    fprintf(stderr, "FAIL %s\n", r.c_str());
+    stats().dump();
+    __builtin_trap();
 }
 
 } // namespace hc
